@@ -216,6 +216,7 @@ def run_case(ctx, job, idx, rng, st):
     # the oracle's own M (reduced mod 2pi for ellipses); for hyperbolas the generated M
     sv_cart = StateVector(truth_cart, date, "cartesian", frame)
     witness = dict(descr, r=c["r"], v=c["v"], mu=mu)
+    p_semi = abs(c["a"]) * abs(1 - c["e"] ** 2)
 
     def roundtrip_check(z, tag, w):
         if z is None:
@@ -225,9 +226,12 @@ def run_case(ctx, job, idx, rng, st):
         dr = float(np.linalg.norm(zc[:3] - r)) if not bad_nan else float("nan")
         dv = float(np.linalg.norm(zc[3:] - v)) if not bad_nan else float("nan")
         key = "C01/roundtrip" + ("-nan" if bad_nan else "") + ("-hyperbolic" if hyper else "")
-        ctx.resid("roundtrip:pos" + (":hyp" if hyper else ""), dr, 1e-9 * rscale, key=key, witness=w,
+        # far out on a hyperbola (|H| large) 1 + e cos(nu) = p/r cancels: one rounding of an angle moves the position by
+        # eps r/p relative (same term as in C05's state tolerance); 64 roundings allowed, never below the flat 1e-9
+        rel = max(1e-9, 64 * 2.220446049250313e-16 * rscale / p_semi)
+        ctx.resid("roundtrip:pos" + (":hyp" if hyper else ""), dr, rel * rscale, key=key, witness=w,
                   msg=f"{tag}: position not restored, |dr|={dr!r} m (|r|={rscale:.6g})")
-        ctx.resid("roundtrip:vel" + (":hyp" if hyper else ""), dv, 1e-9 * vscale, key=key, witness=w,
+        ctx.resid("roundtrip:vel" + (":hyp" if hyper else ""), dv, rel * vscale, key=key, witness=w,
                   msg=f"{tag}: velocity not restored, |dv|={dv!r} m/s")
 
     for src in forms:
